@@ -43,6 +43,14 @@ def rule_k1(chk: Check, F, thorough: bool):
             mine = F.need(name)
         chk.count("K1-sublanguage")
         where = f"{repo.TOKENIZE}:{name}"
+        # a lexeme of the Python lexicon is a regular language of its own text: a look-behind makes it depend on what precedes it
+        # (`x=1#c`: whether `#c` is a comment would depend on the `1`), which CPython's never does
+        import re as _re_k1
+        if _re_k1.search(r"\(\?<[=!]", mine):
+            chk.fail("K1-sublanguage", name, where,
+                     f"`{name}` uses a look-behind: whether a piece of text is this lexeme then depends on the character in front of it, "
+                     f"while tokenize.{name} depends on the text alone")
+            continue
         try:
             same_tree = rx.normalised_tree(mine) == rx.normalised_tree(ref)
         except rx.Unsupported as e:
@@ -213,9 +221,17 @@ def rule_k6(chk: Check, F, ix: Index, thorough: bool):
              "x" + BS + " \n": False, "'a" + BS * 2 + "\n": False, "'a" + BS * 3 + "\n": True, "'a" + BS * 2 + "\r\n": False,
              "'a" + BS * 4 + "\n": False, "'a" + BS: False, "": False, "\n": False}
     bad, und = [], ""
+    import re as _re6
+    from .c17 import module_pure_constants as _mpc6
+    try:
+        _env6 = dict(_mpc6(repo.TOKENIZE))
+    except Exception:
+        _env6 = {}
+    _env6["re"] = _types.SimpleNamespace(search=_re6.search, match=_re6.match, fullmatch=_re6.fullmatch, compile=_re6.compile,
+                                         DOTALL=_re6.DOTALL, S=_re6.S)
     for line, want in cases.items():
         try:
-            got = bool(_mini(f.node, {"self": _types.SimpleNamespace(line=line, end_progs=(1,))}, set()))
+            got = bool(_mini(f.node, dict(_env6, self=_types.SimpleNamespace(line=line, end_progs=(1,))), {"compile"}))
         except _EvErr as e:
             und = str(e)
             break
@@ -225,7 +241,7 @@ def rule_k6(chk: Check, F, ix: Index, thorough: bool):
         chk.undecided("K6-continuation", "in_continued_string", f.where, f"continuation test not evaluable: {und}")
     else:
         try:
-            off = bool(_mini(f.node, {"self": _types.SimpleNamespace(line="'abc" + BS + "\n", end_progs=())}, set()))
+            off = bool(_mini(f.node, dict(_env6, self=_types.SimpleNamespace(line="'abc" + BS + "\n", end_progs=())), {"compile"}))
         except _EvErr:
             off = False
         chk.require(not bad and not off, "K6-continuation", "in_continued_string", f.where,
